@@ -635,7 +635,8 @@ class Inliner:
         out: List[ast.stmt] = [sentinel]
         if init is None or init.cls is None or not init.cls.qualname.startswith("pygradflow"):
             # a @dataclass without its own __init__: the fields are the annotated class attributes, in order, with their defaults
-            is_dc = any((dotted(d.func) if isinstance(d, ast.Call) else dotted(d)) in ("dataclass", "dataclasses.dataclass") for d in ci.node.decorator_list)
+            is_dc = any((dotted(d.func) if isinstance(d, ast.Call) else dotted(d)) in ("dataclass", "dataclasses.dataclass") for d in ci.node.decorator_list) \
+                or any(b in ("NamedTuple", "typing.NamedTuple") for b in ci.ext_bases)
             fields = [x for x in ci.node.body if isinstance(x, ast.AnnAssign) and isinstance(x.target, ast.Name)]
             if is_dc:
                 given = {}
@@ -699,7 +700,7 @@ class Inliner:
                     val = val.body
                 if isinstance(val, ast.Call) and isinstance(val.func, ast.Name):
                     ci = self.prog.resolve_symbol(fi.module, val.func.id)
-                    if isinstance(ci, ClassInfo) and not ci.bases and not [b for b in ci.ext_bases if b != "object"] and not ci.subclasses \
+                    if isinstance(ci, ClassInfo) and not ci.bases and not [b for b in ci.ext_bases if b not in ("object", "NamedTuple", "typing.NamedTuple")] and not ci.subclasses \
                             and not any(m.qualname in self.known for m in ci.methods.values()):
                         cands[n.targets[0].id] = ci
         out = {}
@@ -718,6 +719,11 @@ class Inliner:
                         continue
                     if isinstance(p, ast.Compare) and len(p.ops) == 1 and isinstance(p.ops[0], (ast.Is, ast.IsNot)) and isinstance(p.comparators[0], ast.Constant) and p.comparators[0].value is None:
                         continue
+                    # a NamedTuple helper unpacked into all of its fields: `a, b, c = v`
+                    nfields = len([x for x in ci.node.body if isinstance(x, ast.AnnAssign) and isinstance(x.target, ast.Name)])
+                    if any(b in ("NamedTuple", "typing.NamedTuple") for b in ci.ext_bases) and isinstance(p, ast.Assign) and p.value is n and len(p.targets) == 1 \
+                            and isinstance(p.targets[0], (ast.Tuple, ast.List)) and len(p.targets[0].elts) == nfields and not any(isinstance(e_, ast.Starred) for e_ in p.targets[0].elts):
+                        continue
                     ok = False
                     break
             if ok:
@@ -727,6 +733,15 @@ class Inliner:
     @staticmethod
     def _fields_to_locals(body: List[ast.stmt], objs) -> List[ast.stmt]:
         class T(ast.NodeTransformer):
+            def visit_Assign(self, node):
+                # `a, b, c = v` for a dissolved NamedTuple helper v: the fields in order
+                if isinstance(node.value, ast.Name) and node.value.id in objs and len(node.targets) == 1 and isinstance(node.targets[0], (ast.Tuple, ast.List)):
+                    ci = objs[node.value.id]
+                    fields = [x.target.id for x in ci.node.body if isinstance(x, ast.AnnAssign) and isinstance(x.target, ast.Name)]
+                    if len(fields) == len(node.targets[0].elts):
+                        node.value = ast.copy_location(ast.Tuple(elts=[ast.Name(id=f"{node.value.id}__{f}", ctx=ast.Load()) for f in fields], ctx=ast.Load()), node.value)
+                return self.generic_visit(node)
+
             def visit_Attribute(self, node):
                 self.generic_visit(node)
                 if isinstance(node.value, ast.Name) and node.value.id in objs:
@@ -816,6 +831,14 @@ class Inliner:
 
             def visit_Attribute(self, node: ast.Attribute):
                 self.generic_visit(node)
+                # a property of a dissolved helper object (`point.has_cons`): its expression with self := the local
+                if isinstance(node.ctx, ast.Load) and isinstance(node.value, ast.Name) and node.value.id in inl.objs and depth <= 3:
+                    pm = inl.prog.lookup_method(inl.objs[node.value.id], node.attr)
+                    if pm is not None and pm.is_property:
+                        e = inl.expr_value_of(pm)
+                        if e is not None:
+                            inl.expanded[pm.qualname] = inl.expanded.get(pm.qualname, 0) + 1
+                            return ast.copy_location(_Rename({"self": ast.Name(id=node.value.id, ctx=ast.Load())}).visit(copy.deepcopy(e)), node)
                 # a read of a NEW expression-like property of self (`self._num_slacks`) is replaced by its expression
                 if isinstance(node.ctx, ast.Load) and isinstance(node.value, ast.Name) and node.value.id == "self" and depth <= 3:
                     cls = inl.prog.enclosing_class(fi)
@@ -977,6 +1000,9 @@ class Inliner:
                 # only if every method call on the objects could be expanded (no `v.m(..)` call is left) are the fields promoted
                 left = [n for b_ in body2 for n in ast.walk(b_) if isinstance(n, ast.Call) and isinstance(n.func, ast.Attribute) and isinstance(n.func.value, ast.Name)
                         and n.func.value.id in objs and self.prog.lookup_method(objs[n.func.value.id], n.func.attr) is not None]
+                # ... and no property of theirs is still read as an attribute (it would be mistaken for a field)
+                left += [n for b_ in body2 for n in ast.walk(b_) if isinstance(n, ast.Attribute) and isinstance(n.value, ast.Name) and n.value.id in objs
+                         and getattr(self.prog.lookup_method(objs[n.value.id], n.attr), "is_property", False)]
                 if not left:
                     new.body = self._fields_to_locals(body2, objs)
                     for ci in objs.values():
